@@ -252,6 +252,28 @@ theorem class_mixed_quote_default_kept :
     roundTrip envP .class_ {} (one "x" { doc := some "a value", typ := some "str", default := some (.val (.str "'{name}' is not \"{other}\"")) }) =
       .ok ([{ name := "x", typ := some "str", default := some (.val (.str "'{name}' is not \"{other}\"")), doc := some "a value" }], none) := by decide
 
+/-- floats whose `repr` uses exponent notation (`1e+20` first and last, `5e-324`, `-2.5e+16`), `inf` and `-0.0` are inside `D02`: an
+    instance of `C02_function` (types in the docstring, `emit_default_doc` on), evaluated -/
+def irExp : IR :=
+  { name := some "F", doc := "Summary.",
+    params := [("a", { doc := some "first", typ := some "float", default := some (.val (.float "1e+20")) }),
+               ("b", { doc := some "second", typ := some "Optional[float]", default := some (.val (.float "5e-324")) }),
+               ("c", { doc := some "third", typ := some "float", default := some (.val (.float "-2.5e+16")) }),
+               ("d", { doc := some "fourth", typ := some "float", default := some (.val (.float "inf")) }),
+               ("e", { doc := some "fifth", typ := some "float", default := some (.val (.float "-0.0")) }),
+               ("f", { doc := some "sixth", typ := some "float", default := some (.val (.float "1e+20")) })] }
+def dExp : IR :=
+  { doc := "Summary.",
+    params := [("a", { doc := some "first", typ := some "float" }), ("b", { doc := some "second", typ := some "Optional[float]" }),
+               ("c", { doc := some "third", typ := some "float" }), ("d", { doc := some "fourth", typ := some "float" }),
+               ("e", { doc := some "fifth", typ := some "float" }), ("f", { doc := some "sixth", typ := some "float" })] }
+set_option maxRecDepth 8000 in
+theorem function_exponent_float_kept :
+    inD02 (envOf "doc" dExp []) .function { typeAnnotations := false, emitDefaultDoc := true } irExp = true ∧
+    docHyp (envOf "doc" dExp []) .function { typeAnnotations := false, emitDefaultDoc := true } irExp = true ∧
+    roundTrip (envOf "doc" dExp []) .function { typeAnnotations := false, emitDefaultDoc := true } irExp = .ok (norm .function irExp).view := by
+  decide
+
 def envR (t : String) (tbl : List (String × Expr)) : Env :=
   envOf "doc" (docOne "x" "a value" (some "int") (some { doc := some "the result", typ := some t })) tbl
 def irR (t s : String) : IR := one "x" { doc := some "a value", typ := some "int" } (some { doc := some "the result", typ := some t, default := some (.val (.str s)) })
